@@ -463,6 +463,13 @@ func (c *c16Check) Run(seed, run uint64, rec []uint32, st Stats, only *Viol) []V
 		s.Calibrated++
 		n := pickSize(t, 0)
 		pad := padding(t, n)
+		if t.Chance(1, 5) {
+			// ... and blanks or tabs in front of what follows the break ("surrounding spaces or
+			// tabs"), also far beyond the usual line widths
+			k := []int{1, 2, 7, 100, 1000, 4095, 4096, 4097, 4200, 8200, 12300, 20000}[t.Intn(12)]
+			pad += strings.Repeat([]string{" ", "\t"}[t.Intn(2)], k)
+			s.ByKind["layout-indent-after-pad"]++
+		}
 		// the grammar takes LF, CRLF and a lone CR as line breaks alike
 		switch t.Pick(6, 1, 1) {
 		case 1:
@@ -487,7 +494,7 @@ func (c *c16Check) Run(seed, run uint64, rec []uint32, st Stats, only *Viol) []V
 			s.Straddle++
 		}
 		var tmpl, tokKind string
-		tk := t.Pick(2, 2, 2, 2, 1, 1)
+		tk := t.Pick(2, 2, 2, 2, 1, 1, 2)
 		if tk != 2 && tk != 5 {
 			// strings, raw strings, comments and embedded pieces may hold any text:
 			// multi-byte characters (cut points inside a rune), blanks, a lone `#`
@@ -508,6 +515,10 @@ func (c *c16Check) Run(seed, run uint64, rec []uint32, st Stats, only *Viol) []V
 			tmpl, tokKind = "1 # @\n2\n", "comment"
 		case 4:
 			tmpl, tokKind = "v := \"a#{1}@#{2}b\"\n", "embstr"
+		case 6:
+			// a long token in front of keyword arguments that continue on the next line (what comes
+			// after a long token sits at a large column)
+			tmpl, tokKind = "f := {|a, k: 1, j: 2| [k, j]}\nf(\"@\", k: 1, j: 2,\n  k: 3, j: 4)\n", "dqstr-then-kwargs"
 		default:
 			tmpl, tokKind = "v := '@\n", "symbol"
 		}
